@@ -20,6 +20,7 @@ pub const NEG_KEY_EXCH: u32 = 0x40000000;
 pub const NEG_56: u32 = 0x80000000;
 
 const SIGNATURE: &[u8; 8] = b"NTLMSSP\0";
+const MSV_AV_FLAGS: u16 = 6;
 const MSV_AV_TIMESTAMP: u16 = 7;
 
 pub fn utf16le(s: &str) -> Vec<u8> {
@@ -291,14 +292,53 @@ pub fn verify_authenticate(neg: &Negotiate, challenge_raw: &[u8], challenge_cfg:
     if temp[24..28] != [0u8; 4] {
         return Err("temp: Reserved3 is not zero".into());
     }
-    let info = target_info(challenge_cfg);
+    // AvPairs: the pairs of the challenge, in their order and with their values, closed by MsvAvEOL. MS-NLMP 3.1.5.1.2
+    // lets the client add to them: MsvAvFlags (or more bits in the one the server sent) to announce its MIC,
+    // MsvAvSingleHost, MsvAvTargetName and MsvAvChannelBindings.
     let avs = &temp[28..];
-    if !avs.starts_with(&info) {
-        return Err("temp: AvPairs do not start with the TargetInfo of the challenge".into());
-    }
-    let rest = &avs[info.len()..];
+    let mut client_pairs: Vec<(u16, &[u8])> = Vec::new();
+    let mut pos = 0usize;
+    let rest: &[u8] = loop {
+        if avs.len() < pos + 4 {
+            return Err("temp: AvPairs are not closed by MsvAvEOL".into());
+        }
+        let id = u16::from_le_bytes([avs[pos], avs[pos + 1]]);
+        let len = u16::from_le_bytes([avs[pos + 2], avs[pos + 3]]) as usize;
+        if avs.len() < pos + 4 + len {
+            return Err(format!("temp: AvPair {:#x} announces {} bytes, {} follow", id, len, avs.len() - pos - 4));
+        }
+        if id == 0 {
+            if len != 0 { return Err("temp: MsvAvEOL with a value".into()); }
+            break &avs[pos + 4..];
+        }
+        client_pairs.push((id, &avs[pos + 4..pos + 4 + len]));
+        pos += 4 + len;
+    };
     if ![0, 4, 8].contains(&rest.len()) || rest.iter().any(|b| *b != 0) {
         return Err(format!("temp: {} unexpected bytes after the AvPairs", rest.len()));
+    }
+    {
+        let mut ci = 0usize;
+        for (sid, sval) in challenge_cfg.av_pairs.iter() {
+            // find this pair among the client's, skipping what a client may add
+            loop {
+                let (cid, cval) = match client_pairs.get(ci) { Some(p) => *p, None => return Err(format!("temp: AvPair {:#x} of the challenge is missing from the response", sid)) };
+                ci += 1;
+                if cid == *sid {
+                    let same = if cid == MSV_AV_FLAGS { cval.len() == sval.len() && cval.iter().zip(sval.iter()).all(|(c, s)| c & s == *s) } else { cval == &sval[..] };
+                    if !same { return Err(format!("temp: AvPair {:#x} differs from the one in the challenge", sid)); }
+                    break;
+                }
+                if ![MSV_AV_FLAGS, 8, 9, 10].contains(&cid) {
+                    return Err(format!("temp: AvPair {:#x} is not in the challenge at that place and not one a client may add", cid));
+                }
+            }
+        }
+        for (cid, _) in &client_pairs[ci..] {
+            if ![MSV_AV_FLAGS, 8, 9, 10].contains(cid) {
+                return Err(format!("temp: AvPair {:#x} is not in the challenge and not one a client may add", cid));
+            }
+        }
     }
 
     let server_challenge = &challenge_cfg.server_challenge;
